@@ -19,7 +19,12 @@ IR = "nsl/LinearIR.py"
 def check_generic_shape(model: Model) -> List[str]:
     """The dispatch model is only valid while Visitor.v_Generic has the shape it
     models.  Returns a list of problems (empty = ok)."""
-    f = model.cls(VISITOR, "Visitor").own_method("v_Generic")
+    f0 = model.cls(VISITOR, "Visitor").own_method("v_Generic")
+    # the walk over the MRO / the building of handler names may sit in a module-level helper of Visitor.py that v_Generic calls
+    # (e.g. a per-class memo of the name list): the shape is read over v_Generic and those helpers together
+    fi = model.file(VISITOR)
+    helpers = [fn for nm, fn in fi.functions.items() if any(isinstance(c, ast.Call) and isinstance(c.func, ast.Name) and c.func.id == nm for c in ast.walk(f0))]
+    f = ast.Module(body=[f0] + helpers, type_ignores=[])
     src = unparse(f)
     problems = []
     if "getmro" not in src:
